@@ -78,6 +78,8 @@ def check_filelist(rep, prog, fm, cfg):
                 it = L.iter
                 if isinstance(it, Ref) and apps and it == apps[0].data[0]:
                     it_ok = True
+                if isinstance(it, Op) and it.op == "enumerate" and apps and it.args[0] == apps[0].data[0]:
+                    it_ok = True
             rep.check(it_ok, "C08.R3.order", "%s iterates the sorted list itself (no re-ordering, slicing or de-duplication)" % fn, q, fn,
                       "%s does not iterate the list returned by getFileList as is" % fn)
     rep.floor("getFileList call sites", n, 5)
@@ -175,6 +177,7 @@ def check_pipelines(rep, prog, fm, cfg):
 
 
 def check_summary(rep, prog):
+    """each list field must be the very value the full decode displays (term equality after inlining the header decoders)"""
     rule = "C08.R4.summary-fields"
     I = Interpreter(prog, hooks={"opaque": {PT + "sectionFun", PT + "considerPEL"}})
     st = pelx.new_stream(I)
@@ -184,35 +187,47 @@ def check_summary(rep, prog):
     for e in I.events:
         if e.kind == "dict_store" and e.func == PT + "parsePELSummary" and is_const(e.data[1], str):
             sts.setdefault(e.data[1].v, []).append(e)
-    outs = [e for e in I.events if e.kind == "call" and e.data[0] == PT + "generatePH"]
-    out = outs[0].data[1][1] if outs else None
-
-    def from_out(section, key):
-        def f(v):
-            return isinstance(v, Op) and v.op == "getitem" and v.args[1] == Const(key) and isinstance(v.args[0], Op) and \
-                v.args[0].op == "getitem" and v.args[0].args[1] == Const(section) and v.args[0].args[0] == out
-        return f
-    want = {
-        "PLID": lambda v: (hex_render(v) or {}).get("value") == IntF(40, 4),
-        "CreatorID": from_out("Private Header", "Creator Subsystem"),
-        "Subsystem": from_out("User Header", "Subsystem"),
-        "Sev": from_out("User Header", "Event Severity"),
-        "CompID": from_out("Private Header", "Created by"),
-    }
-    for k, pred in want.items():
+    # the document the full decode would show for the two headers (same interpretation: generatePH/UH inlined)
+    docs = {}
+    for e in I.events:
+        if e.kind == "dict_store" and e.func in (PT + "generatePH", PT + "generateUH") and is_const(e.data[1], str):
+            ents, _ = pelx.final_entries(I, e.data[2])
+            docs[e.data[1].v] = {k: v[-1][1] for k, v in ents.items() if k is not None}
+    if "Private Header" not in docs or "User Header" not in docs:
+        raise AnalysisError("header decoders do not store 'Private Header' / 'User Header' documents")
+    want = {"PLID": ("Private Header", "Platform Log Id"), "CreatorID": ("Private Header", "Creator Subsystem"),
+            "Subsystem": ("User Header", "Subsystem"), "Sev": ("User Header", "Event Severity"),
+            "CompID": ("Private Header", "Created by"), "Commit Time": ("Private Header", "Committed at")}
+    from ..interp import _strip_undef
+    for k, (sec, key) in want.items():
         es = sts.get(k, [])
-        rep.check(len(es) == 1 and pred(es[0].data[2]), rule, "summary %s equals the corresponding field of the full decode" % k, "parsePELSummary",
-                  "summary[%r] = ..." % k, "list entry field %s is not taken from the same decoded value the full document shows: %r" % (
-                      k, es[0].data[2] if es else None))
-    es = sts.get("Commit Time", [])
-    if es:
-        check_bcd(rep, rule, "parsePELSummary", "Commit Time", es[0].data[2], 16)
-    else:
-        rep.fail(rule, "parsePELSummary", "summary['Commit Time']", "Commit Time missing from the summary")
-    # the decoded 'out' really is what generatePH/UH filled (same dict) - and the eid returned is the Entry Id
-    uhs = [e for e in I.events if e.kind == "call" and e.data[0] == PT + "generateUH"]
-    rep.check(bool(uhs) and uhs[0].data[1][2] == out, rule, "PH and UH are decoded into the same document the summary reads", "parsePELSummary",
-              "generateUH(stream, ph.creatorID, out)", "summary reads a different dictionary than the one the headers were decoded into")
+        full = docs[sec].get(key)
+        got = _strip_undef(I.simp(es[0].data[2])) if es else None
+        ok = len(es) == 1 and full is not None and (got == full or _strip_undef(got) == _strip_undef(full) or same_under(I, es[0], got, full))
+        rep.check(ok, rule, "summary %s equals '%s' of the %s in the full decode" % (k, key, sec), "parsePELSummary",
+                  "summary[%r] = ..." % k, "list entry field %s differs from the full decode's %s / %s: summary has %r, full decode shows %r" % (
+                      k, sec, key, got, full))
+    # eid returned = the Entry Id
+    rep.count("summary fields compared", len(want))
+
+
+def same_under(I, ev, got, full):
+    """equal when the guard of the store decides the remaining ite conditions"""
+    g = conj(ev.guard)
+
+    def red(t):
+        n = 0
+        while isinstance(t, Ite) and n < 20:
+            parts = t.c.args if isinstance(t.c, Op) and t.c.op == "and" else [t.c]
+            if all(p in g for p in parts):
+                t = t.a
+            elif any(not_(p) in g for p in parts):
+                t = t.b
+            else:
+                break
+            n += 1
+        return t
+    return red(got) == red(full)
 
 
 def check_json_order(rep, prog):
@@ -245,3 +260,5 @@ def run(rep, prog, thorough):
     check_pipelines(rep, prog, fm, cfg)
     check_summary(rep, prog)
     check_json_order(rep, prog)
+    from .c09 import check_all_separator
+    check_all_separator(rep, fm, "C08.R2.same-filter")
